@@ -1,19 +1,25 @@
 import Goat.Driver.Parse
 import Goat.Driver.Num
+import Goat.Driver.OMap
 /-! goatmodel: one operation per input line, one canonical output line per operation. -/
 open Goat.Driver
 
-def step (line : String) : String :=
-  match (line.trimAscii.toString.splitOn " ").filter (· ≠ "") with
-  | "parse" :: args => parseCmd args
-  | "num" :: args => numCmd args
-  | _ => "bad-op"
+structure DriverState where
+  omap : OMapState := {}
 
-partial def loop (h : IO.FS.Stream) (out : IO.FS.Stream) : IO Unit := do
+def step (st : DriverState) (line : String) : DriverState × String :=
+  match (line.trimAscii.toString.splitOn " ").filter (· ≠ "") with
+  | "parse" :: args => (st, parseCmd args)
+  | "num" :: args => (st, numCmd args)
+  | "omap" :: args => let (s, o) := omapCmd st.omap args; ({ st with omap := s }, o)
+  | _ => (st, "bad-op")
+
+partial def loop (h : IO.FS.Stream) (out : IO.FS.Stream) (st : DriverState) : IO Unit := do
   let line ← h.getLine
   if line.isEmpty then return ()
-  out.putStrLn (step line)
+  let (st', o) := step st line
+  out.putStrLn o
   out.flush
-  loop h out
+  loop h out st'
 
-def main : IO Unit := do loop (← IO.getStdin) (← IO.getStdout)
+def main : IO Unit := do loop (← IO.getStdin) (← IO.getStdout) {}
